@@ -152,6 +152,33 @@ def gen_hex_string(cs):
     return s
 
 
+def gen_tie_string(cs, v=None):
+    """decimal strings on / just beside the exact midpoint of two adjacent doubles (many significant digits):
+    correct rounding needs arbitrary precision here"""
+    from decimal import Decimal, getcontext
+    getcontext().prec = 1200
+    if v is None:
+        v = abs(vg.gen_double(cs))
+    if v != v or v == float('inf'):
+        v = 1.0
+    nxt = vg.f_from_bits(vg.bits_of(v) + 1)
+    if nxt == float('inf'):
+        nxt, v = v, vg.f_from_bits(vg.bits_of(v) - 1)
+    mid = (Decimal(v) + Decimal(nxt)) / 2
+    k = cs.choice(5)
+    ulp = Decimal(nxt) - Decimal(v)
+    if k == 1:
+        mid = mid + ulp / Decimal(10 ** (5 + cs.choice(40)))
+    elif k == 2:
+        mid = mid - ulp / Decimal(10 ** (5 + cs.choice(40)))
+    elif k == 3:
+        mid = Decimal(v) + ulp / Decimal(10 ** (3 + cs.choice(30)))
+    s = format(mid, 'f') if cs.bool() and abs(mid.adjusted()) < 40 else format(mid, 'e')
+    if cs.bool(60) and len(s) > 25:
+        s = s[:20 + cs.choice(len(s) - 20)] if 'e' not in s else s
+    return ('-' if cs.bool(40) else '') + s
+
+
 PRECS = list(range(0, 21)) + [30, 60]
 
 
@@ -183,9 +210,17 @@ class C17(Property):
                   '1e-400', '.', '', '+', 'e5', '1e', '1e+', '0x10', '1.5e3', ' \t\n1.5\r\n ', '١', 'infinity_', 'in_f', '1_000.000_1e1_0']:
             if all(ord(c) < 128 for c in s):
                 yield {'k': 'parse', 's': s}
+        # ties between adjacent doubles (exact midpoints and near misses) for a fixed set of doubles
+        from ..choice import ChoiceStream
+        for i, v in enumerate([1.0, 1.0000000000000002, 4503599627370498.0, 9007199254740992.0, 0.1, 1e22, 1e23, 5e-324, 2.2250738585072014e-308,
+                               1.7976931348623155e308, 123456.789, 3.0e-5, 6.02214076e23, 8.5, 0.30000000000000004, 2.0 ** -1022, 2.0 ** 1000]):
+            for j in range(12):
+                yield {'k': 'parse', 's': gen_tie_string(ChoiceStream(bytes([j * 19 % 256, j * 53 % 256, i, j, 200, 7 * j % 256, 3, 9, 1])), v)}
 
     def gen(self, cs, ctx):
-        k = cs.weighted([120, 70, 40, 26])
+        k = cs.weighted([120, 60, 40, 26, 10])
+        if k == 4:
+            return {'k': 'parse', 's': gen_tie_string(cs)}
         if k == 0:
             v = vg.gen_double(cs)
             fm = []
